@@ -88,6 +88,7 @@ func runFixtures(names []string) (fails []string) {
 		"provenance": fxProvenance,
 		"regex":      fxRegex,
 		"table":      fxTable,
+		"lockleak":   fxLockLeak,
 	}
 	if names == nil {
 		for n := range all {
@@ -321,6 +322,23 @@ func fxRegex(P *Program) (fails []string) {
 	}
 	if ok, w, err := RegexEquivalent("^a*$", "^a+$"); err != nil || ok || w != "" {
 		fails = append(fails, fmt.Sprintf("RegexEquivalent(a*, a+): equal=%v witness=%q err=%v (expected the empty string as witness)", ok, w, err))
+	}
+	return
+}
+
+func fxLockLeak(P *Program) (fails []string) {
+	fs, e := need(P, "leakGood", "leakBad", "leakTryGood")
+	if e != nil {
+		return e
+	}
+	if l := lockLeaks(fs[0]); len(l) != 0 {
+		fails = append(fails, "lockLeaks reports leakGood")
+	}
+	if l := lockLeaks(fs[1]); len(l) != 1 {
+		fails = append(fails, fmt.Sprintf("lockLeaks finds %d leaks in leakBad (expected the one early return)", len(l)))
+	}
+	if l := lockLeaks(fs[2]); len(l) != 0 {
+		fails = append(fails, "lockLeaks reports the conditional try-lock/defer pair in leakTryGood")
 	}
 	return
 }
